@@ -2,17 +2,18 @@
 
 Proof:  AFV/Props/C29.lean
           resolve_first_of                 the specification: first of (Einsum-local, top-level[e], top-level[default])
-          lookup_precedence_model          what the code does for every input (local, else default)
-          lookup_precedence_partial        = the specification when top-level[e] does not define the name
-          lookup_precedence_counterexample the per-Einsum top-level entry is ignored (known finding)
-          effective_eq_spec_partial / table_eq_spec_partial   whole rename list / whole table = specified
+          lookup_precedence                for ALL inputs the code (after fix 9c6cc63) evaluates the definition `resolve` selects
+          effective_eq_spec / table_eq_spec / effectiveSpec_find
+                                           whole rename list, in order, and whole table = specified, when no name is
+                                           used in both kinds (KindsDisjoint = the judge's domain)
           expected_count_checked / expected_count_mismatch_rejected
 Model:  AFV/Model/Renames.lean (Renames.get_renames_for_einsum, Einsum._eval_expressions rename handling,
         Rename._eval_expressions), AFV/Model/SetAlg.lean
 Spec:   AFV/Spec/SetAlg.lean (resolve, effectiveSpec, specTable)
 Tie:    correspondence through Spec.from_yaml(...)._spec_eval_expressions(einsum_name=…): per Einsum the
         resolved set of every rename name (from the evaluated workload and through a Memory `keep: <name>`),
-        or the EvaluationError.  Judge = Lean spec; the Lean model classifies the known finding.
+        or the EvaluationError.  Judge = Lean spec on its domain (in_domain); outside it the Lean model only (no verdict).
+        The witness of the repaired per-Einsum defect is a regression case in corpus/C29.
 """
 from __future__ import annotations
 
@@ -70,7 +71,9 @@ def gen_case(rng):
               "rank_variables": []}
         if rng.random() < 0.3:
             rvs = sorted({r for e in w["einsums"] for a in e["accesses"] for r in a["rank_vars"]})
-            er["rank_variables"] = [{"name": rng.choice(RANK_RENAMES + S.RENAME_POOL[:2]),
+            # names of rank-variable renames are disjoint from those of tensor renames: what a name given in
+            # both kinds means is not defined by the property (see in_domain)
+            er["rank_variables"] = [{"name": rng.choice(RANK_RENAMES),
                                      "source": rng.choice(rvs), "expected_count": None}]
         top.append(er)
     for e in w["einsums"]:
@@ -78,6 +81,22 @@ def gen_case(rng):
             e["renames"] = _gen_renames(rng, S.RENAME_POOL, base + S.tensors_of(e), 3, 0.1, foreign)
             e["renames_form"] = rng.choice(["dict", "list"])
     return {"workload": w, "renames": top, "exprs": [], "dicts": []}
+
+
+def in_domain(case) -> bool:
+    """Domain of the judge (hypotheses of AFV.C29.effective_eq_spec): no name is used both for a tensor rename
+    and for a rank-variable rename in the top-level section, and the names inside one Einsum's own list are distinct.
+    The property does not say what a name given in both kinds means; such cases are compared with the Lean model
+    only (which follows the code's list order), as an observation without verdict."""
+    tn = {r["name"] for er in case["renames"] for r in er["tensor_accesses"]}
+    rn_ = {r["name"] for er in case["renames"] for r in er["rank_variables"]}
+    if tn & rn_:
+        return False
+    for e in case["workload"]["einsums"]:
+        ns = [r["name"] for r in e["renames"]]
+        if len(ns) != len(set(ns)):
+            return False
+    return True
 
 
 def all_rename_names(case):
@@ -127,6 +146,17 @@ def _nv(v):
     return ("ok", tuple(v["ok"])) if "ok" in v else ("err",)
 
 
+class _Sink:
+    """stands in for the list of judged problems on out-of-domain cases: records a tie mismatch instead"""
+
+    def __init__(self, tie, case):
+        self.tie, self.case = tie, case
+
+    def append(self, p):
+        self.tie.append({"kind": "out-of-domain:" + p["kind"], "einsum": p["einsum"], "name": p.get("name"),
+                         "impl": p["impl"], "model": p["model"], "case": self.case})
+
+
 class Runner:
     def __init__(self, ctx: Ctx):
         self.ctx = ctx
@@ -148,6 +178,13 @@ class Runner:
         case["dicts"] = []
         rep = self.lean(case)
         problems = []
+        dom = in_domain(case)
+        if not dom:
+            # observation without verdict: the reference is the model, a difference is a tie mismatch
+            rep = {"spec": rep["model"], "model": rep["model"]}
+            problems = _Sink(self.tie_mismatch, case)
+            if record:
+                ctx.dist("out-of-domain:same-name-in-both-kinds")
         implw = S.impl_workload(case)
         spec_err, model_err = "err" in rep["spec"], "err" in rep["model"]
         for e in case["workload"]["einsums"]:
@@ -186,7 +223,7 @@ class Runner:
                                      "spec_keep": sa_v, "model": mv, "groups": g})
                 elif mt is not None and (iv[0] if iv else None) != (mv[0] if mv else None):
                     self.tie_mismatch.append({"kind": "name", "einsum": en, "name": n, "impl": iv, "model": mv, "case": case})
-        return problems, rep
+        return (problems if dom else []), rep
 
     @staticmethod
     def groups(case, e, n):
@@ -293,20 +330,39 @@ class Runner:
         return any(er["name"] in names and er["name"] != "default" and (er["tensor_accesses"] or er["rank_variables"])
                    for er in case["renames"])
 
+    def legacy_per_einsum(self, case, p) -> bool:
+        """Is the observed outcome what the code produced before fix 9c6cc63 — the specified outcome of the
+        same case with the top-level entries named like an Einsum dropped — while the specified outcome
+        (with those entries) is different?"""
+        if not self.has_per_einsum_entry(case, p):
+            return False
+        c2 = copy.deepcopy(case)
+        names = [x["name"] for x in c2["workload"]["einsums"]]
+        c2["renames"] = [er for er in c2["renames"] if er["name"] == "default" or er["name"] not in names]
+        c2["exprs"], c2["dicts"] = [], []
+        try:
+            spec = self.lean(c2)["spec"]
+        except Exception:
+            return False
+        if p["kind"] == "workload":
+            legacy_ok = "err" not in spec
+            return legacy_ok == (p["impl"]["status"] == "ok") and legacy_ok != (p["spec"] == "ok")
+        se = S.lean_einsum(spec, p["einsum"])
+        if se is None:
+            return False
+        lv = S.table_dict(se["table"]).get(p["name"])
+        i0 = lambda v: v[0] if v else None  # noqa: E731
+        return i0(lv) == i0(p["impl"]) != i0(p["spec"])
+
     def classify(self, case, p):
         e = next(x for x in case["workload"]["einsums"] if x["name"] == p["einsum"])
-        per_einsum = self.has_per_einsum_entry(case, p)
+        if self.legacy_per_einsum(case, p):
+            return KEY_PER_EINSUM, "a rename given in the top-level renames under the Einsum's own name is ignored"
         if p["kind"] == "name":
-            same = p["model"] != "n/a" and (p["impl"][0] if p["impl"] else None) == (p["model"][0] if p["model"] else None)
             g = self.groups(case, e, p["name"])
-            if "top-einsum" in g and same:
-                return KEY_PER_EINSUM, "a rename given in the top-level renames under the Einsum's own name is ignored"
             return "rename-resolves-wrong:" + ("+".join(g) or "undefined"), f"rename {p['name']} does not resolve to the first of (Einsum-local, top-level[einsum], default)"
         # status mismatch
         impl_ok = p["impl"]["status"] == "ok"
-        same = (p["model"] == "ok") == impl_ok
-        if per_einsum and same:
-            return KEY_PER_EINSUM, "a rename given in the top-level renames under the Einsum's own name is ignored (changes accept/reject)"
         has_count = any(r.get("expected_count") is not None for er in case["renames"] for r in er["tensor_accesses"] + er["rank_variables"]) or \
             any(r.get("expected_count") is not None for x in case["workload"]["einsums"] for r in x["renames"])
         if impl_ok:
@@ -317,23 +373,15 @@ class Runner:
     def judge(self, case, problems):
         ctx = self.ctx
         seen = set()
+        n_quick = 0
         for p in problems:
-            per_einsum = self.has_per_einsum_entry(case, p)
-            # after two fully minimised instances, classify the known mechanism directly:
-            # lookup_precedence_partial says model = spec unless top-level[e] defines the name,
-            # so "impl = model ≠ spec with a top-level[e] entry present" is that mechanism.
-            if self.n_min >= 2 and per_einsum:
-                same = (p["kind"] == "name" and p["model"] != "n/a" and
-                        (p["impl"][0] if p["impl"] else None) == (p["model"][0] if p["model"] else None)) or \
-                       (p["kind"] == "workload" and (p["model"] == "ok") == (p["impl"]["status"] == "ok"))
-                if same:
-                    # confirm cheaply: without the per-Einsum entries the discrepancy must vanish
-                    c2 = copy.deepcopy(case)
-                    c2["renames"] = [er for er in c2["renames"] if er["name"] == "default" or
-                                     all(er["name"] != x["name"] for x in c2["workload"]["einsums"])]
-                    if self.still_fails(c2, lambda q: q["einsum"] == p["einsum"] and q["kind"] == p["kind"] and q.get("name") == p.get("name")) is None:
-                        ctx.fail(KEY_PER_EINSUM, "per-Einsum top-level renames ignored", {"case": case, "problem": p})
-                        continue
+            # after a few fully minimised instances of the (repaired) per-Einsum mechanism, further instances are
+            # classified directly by the same test the classifier applies to minimised cases
+            if self.n_min >= 3 and self.legacy_per_einsum(case, p):
+                n_quick += 1
+                if n_quick <= 1:
+                    ctx.fail(KEY_PER_EINSUM, "per-Einsum top-level renames ignored (not minimised)", {"case": case, "problem": p})
+                continue
             self.n_min += 1
             mc, mp = self.minimise(case, p) if self.n_min <= 12 else (case, p)
             key, what = self.classify(mc, mp)
@@ -352,7 +400,7 @@ def run(ctx: Ctx):
     ctx.cov["rule"] = (
         "random workloads of 1–4 Einsums; top-level renames with 0–2 'default' entries, an entry named like an Einsum for "
         "~45% of the Einsums, sometimes an entry for an unknown Einsum, in random order; each entry 0–3 tensor renames and "
-        "sometimes a rank-variable rename; Einsum-local renames (dict or list form) for half of the Einsums; names from a pool of "
+        "sometimes a rank-variable rename (names disjoint from the tensor renames'); Einsum-local renames (dict or list form) for half of the Einsums; names from a pool of "
         "6 so that the three levels collide; sources = expression trees of depth 0–2 over the named sets, earlier renames and "
         "sometimes tensors of other Einsums (undefined → rejection); expected_count stated for ~1/3 of the renames from the "
         "specified sizes, 30% of them off by one. Observed per Einsum through Spec.from_yaml()._spec_eval_expressions(einsum_name): "
@@ -368,7 +416,7 @@ def run(ctx: Ctx):
         "expected_count is an integer literal (the repo also accepts an expression such as `1 if len(All) == 3 else 0`; its evaluation is C21's subject)",
         "rename names are distinct inside one list (a YAML mapping guarantees it; duplicates in the list form make the repo raise ValueError and are not generated)",
         "the order in which several rename definitions are evaluated is part of the specification (Einsum-local, top-level[einsum], default; tensor renames before rank-variable renames), because sources may refer to earlier renames",
-        "within one top-level entry a name defined both as tensor rename and as rank-variable rename is outside the theorem's reading of 'first of'",
+        "a name given both as tensor rename and as rank-variable rename in the top-level section is outside the judge's domain (not generated; replays / corpus cases of that shape are compared with the model only)",
     ]
     import accelforge  # noqa: F401
 
@@ -389,8 +437,7 @@ def run(ctx: Ctx):
         case = body["case"]
         ctx.dist("corpus")
         problems, _ = rn.evaluate(case)
-        if body.get("expect_known") and not problems:
-            rn.tie_mismatch.append({"kind": "corpus-witness-no-longer-fails", "file": f.name, "case": case})
+        # regression cases (witness of the repaired defect, same-name-in-both-kinds observation): judged like any other
         rn.judge(case, problems)
 
     budget_s = 900 if ctx.thorough else 60
